@@ -537,7 +537,7 @@ func TestC20(t *testing.T) {
 		r.Assumptions = []string{"time is only used as order between events stamped on this host; no assertion depends on a duration", "not asserted: a tool that cannot be found at start-up (the default configuration deliberately disables the rule then)", "the 'finished before return' clause is asserted for runs without a fatal error"}
 		r.Extra["num_cpu"] = runtime.NumCPU()
 		shells := []string{"", "", "", "bash", "sh", "bash -e {0}", "sh -e {0}", "pwsh", "python", "python {0}", "cmd"}
-		r.Check(t, "worlds", hx.N(70, 1500), func(rt *rapid.T) {
+		r.Check(t, "worlds", hx.N(140, 1500), func(rt *rapid.T) {
 			c := &c20Case{Delays: map[string]int{}}
 			for _, p := range []string{"run-enter", "wg-added", "goroutine-start", "acquired", "process-exit", "released", "callback-done", "wait-enter"} {
 				if rapid.IntRange(0, 3).Draw(rt, "hasdelay") == 0 {
@@ -548,6 +548,7 @@ func TestC20(t *testing.T) {
 			latMode := rapid.SampledFrom([]string{"equal", "first-slowest", "straggler", "random"}).Draw(rt, "latmode")
 			nf := rapid.IntRange(1, 6).Draw(rt, "nfiles")
 			id := 0
+			caseFplan := rapid.SampledFrom([]string{"exit-nonzero-silent", "kill", "kill-after-output", "empty", "garbage", "two-documents", "json-then-garbage"}).Draw(rt, "fplan")
 			for fi := 0; fi < nf; fi++ {
 				f := c20File{Shell: rapid.SampledFrom(shells).Draw(rt, "wshell"), Workdir: rapid.SampledFrom([]int{0, 0, 1, 2}).Draw(rt, "wworkdir")}
 				for ji := 0; ji < rapid.IntRange(1, 4).Draw(rt, "njobs"); ji++ {
@@ -563,7 +564,9 @@ func TestC20(t *testing.T) {
 							s.Plan, s.N = "issues", rapid.IntRange(1, 4).Draw(rt, "nissues")
 						case 3:
 							if failing {
-								s.Plan = rapid.SampledFrom([]string{"exit-nonzero-silent", "kill", "kill-after-output", "empty", "garbage", "two-documents", "json-then-garbage"}).Draw(rt, "fplan")
+								// one kind of failure per world (a second kind would make the run fatal anyway
+								// and hide what the first one does)
+								s.Plan = caseFplan
 								s.N = rapid.IntRange(0, 2).Draw(rt, "fn")
 							}
 						case 4:
